@@ -727,6 +727,27 @@ def check_property_direct(ctx, case, m, names, ids, vals, got, key):
             if want != have:
                 ctx.violation(key + ":placement", "scatterer_from_parameters does not put each value at every site of its prior",
                               dict(kind="case", case=case, vals=vals, expected=repr(want), observed=repr(have)))
+        # the same list / array object, rewritten in place between calls (what an optimiser or sampler hands over):
+        # every call has to place the CURRENT values
+        if vals:
+            import numpy as _np
+            for mk in (list, lambda v: _np.array(v, dtype=float)):
+                buf = mk(vals)
+                with warnings.catch_warnings():
+                    warnings.simplefilter("ignore")
+                    m.scatterer_from_parameters(buf)
+                    for step in range(2):
+                        for i in range(len(vals)):
+                            buf[i] = buf[i] + 1 + step
+                        fresh_vals = [float(x) for x in buf]
+                        again = m.scatterer_from_parameters(buf)
+                        ref = m.scatterer_from_parameters(list(fresh_vals))
+                        ctx.explored += 1
+                        if norm_scat(again) != norm_scat(ref) or again is ref:
+                            ctx.violation(key + ":buffer-reuse", "scatterer_from_parameters called again with the same list / array "
+                                          "object after its entries were changed in place does not place the current values",
+                                          dict(kind="case", case=case, vals=fresh_vals, expected=repr(norm_scat(ref)),
+                                               observed=repr(norm_scat(again))))
         # initial guess scatterer = every prior replaced by its guess
         with warnings.catch_warnings():
             warnings.simplefilter("ignore")
